@@ -169,7 +169,10 @@ def doScheduledAction {σ} (st : St σ) (target : Int) : Except SimFault (SimEve
 
 /-- the internal-timer update of `trigger_update`: new slot value and whether TimerBegin is pushed -/
 def timerUpdate (cur : Option Int) (now : Int) (durNs : Nat) (replace : Bool) : Option Int × Bool :=
-  if replace || cur.getD now < now + durNs then (some (now + durNs), true) else (cur, false)
+  let later := match cur with
+    | none => true                      -- `current.map_or(true, |c| c < now + duration)`
+    | some c => decide (c < now + durNs)
+  if replace || later then (some (now + durNs), true) else (cur, false)
 
 /-- apply one returned action to the side's slots; may push a TimerBegin -/
 def applyAction {σ} (sd : Side σ) (sq : SimQueue) (now : Int) (isClient : Bool) (a : TAction) :
